@@ -114,9 +114,12 @@ def compileNode (cfg : CompCfg) : Node → Pool → CR (List LInstr × Pool)
   | .str m s, p => do
     let (k, p) ← mkConst (.str s) p
     pure ([li m.loc .push k], p)
-  | .const m v, p => do
-    let (k, p) ← mkConst v p
-    pure ([li m.loc .push k], p)
+  | .const m v, p =>
+    match v with
+    | .nil => .ok ([li m.loc .nil_], p)       -- `ConstantNode{nil}` (a ConstExpr function returned nil): OpNil
+    | v => do
+      let (k, p) ← mkConst v p
+      pure ([li m.loc .push k], p)
   | .unary m op x, p => do
     let (cx, p) ← compileNode cfg x p
     if op == "!" || op == "not" then pure (cx ++ [li m.loc .not_], p)
